@@ -52,6 +52,7 @@ def make_case(rng):
         default_dom = ('set', set(range(low, low + card)))
     domains = [default_dom] * nf
     structure = None
+    force_ns = []
     if rng.random() < 0.6 and nf >= 2:
         structure = []
         idx = 0
@@ -74,6 +75,8 @@ def make_case(rng):
                 step = rng.choice([1, 3])
                 vals = [basev + j * step for j in range(rng.choice([1, 2, 5]))]          # distinct values: a value list denotes a set
                 attr = vals if rng.random() < 0.5 else __import__('numpy').array(vals)
+                if rng.random() < 0.3:
+                    force_ns.append(len(vals))
                 dom = ('set', set(vals))
             else:
                 vals = [basev + j for j in range(rng.choice([2, 3, 5]))]
@@ -91,6 +94,8 @@ def make_case(rng):
             idx = ixs[-1] + 1
         if not structure:
             structure = None
+    if force_ns:
+        ns = force_ns[0]
     kw = dict(n_features=nf, n_samples=ns, cardinality=card, structure=structure, ensure_rep=ensure_rep, random_values=random_values, low=low, high=high, seed=rng.randrange(51))
     if rng.random() < 0.3:
         kw['k'] = rng.choice([1, 10, 100])
@@ -107,9 +112,12 @@ def shard_generate(sh, part):
         cc = CategoricalClassification()
         if rng.random() < 0.5:
             np.random.random(rng.randint(1, 7))          # unrelated use of the global RNG between construction and generation
+        import copy
+        structure_before = copy.deepcopy(kw['structure'])
         ok, X = sh.call('shape-dtype', 'generate_data', cc.generate_data, **kw)
         if not ok:
             continue
+        sh.check('seed-reproducible', repr(kw['structure']) == repr(structure_before), 'structure-argument-modified-by-the-call', lambda: {'before': repr(structure_before)[:300], 'after': repr(kw['structure'])[:300]})
         wit = lambda **k2: dict(k2, kwargs={k: (v if k != 'structure' else repr(v)) for k, v in kw.items()}, head=X[:6].tolist() if hasattr(X, 'tolist') else None)  # noqa: E731
         good_shape = isinstance(X, np.ndarray) and X.shape == (kw['n_samples'], kw['n_features']) and X.dtype == np.int32
         sh.check('shape-dtype', good_shape, 'wrong-shape-or-dtype', lambda: wit(shape=getattr(X, 'shape', None), dtype=str(getattr(X, 'dtype', None))))
